@@ -60,6 +60,7 @@ def run_rules_on(repo, prop, configs, rule=None):
             mod.run(ctx, F)
         if hasattr(mod, "finish"):
             mod.finish(ctx)
+        ctx.check_shortfalls()
     except extract.ExtractionError as e:
         return None, "does-not-compile: " + str(e)[-800:]
     except AnalysisError as e:
